@@ -3,6 +3,8 @@
 SPECIFICATION MCSpec
 CONSTANTS
   V4 = TRUE
+  Loops = {1}
+  ServerWideBuffer = FALSE
   StopOnParseError = TRUE
   ReuseReadBuffer = FALSE
   MaxReads = 3
